@@ -31,7 +31,7 @@ Data:
 """
 import ast
 from fractions import Fraction
-from .common import parse, ExtractError, find_def, seg
+from .common import parse, ExtractError, find_def, seg, lean_str
 from . import pyfn2lean as P
 
 REL = 'chempy/electrolytes.py'
@@ -198,6 +198,115 @@ def _constants():
     return out
 
 
+UNIT_ORDER = ['units_molal', 'units_meter', 'units_Kelvin', 'units_mol']
+CONST_ORDER = ['constants_Faraday_constant', 'constants_Avogadro_constant', 'constants_vacuum_permittivity',
+               'constants_Boltzmann_constant', 'constants_pi', 'constants_molar_gas_constant']
+
+
+def _canonical_wrapper(d, name, params):
+    """`def <name>` with the FIXED argument order  params, units (molal, meter, Kelvin, mol), constants (F, N_A, eps0, k_B, pi, R)
+    around the translated `<name>_raw`, whatever order the translator chooses for the attribute arguments"""
+    extra = [a for a in d.args if a not in params]
+    order = list(params) + [a for a in UNIT_ORDER if a in extra] + [a for a in CONST_ORDER if a in extra]
+    if sorted(order) != sorted(d.args):
+        raise ExtractError('%s: unexpected attribute arguments %s' % (name, ', '.join(d.args)))
+    return ('/-- `%s` with the canonical argument order (%s) -/\ndef %s {α : Type} %s (%s : α) : α :=\n  %s %s\n'
+            % (d.name, ', '.join(order), name, P._binders(d.classes), ' '.join(order), d.name, ' '.join(d.args)))
+
+
+def _one(nodes, what):
+    if len(nodes) != 1:
+        raise ExtractError('ionic_strength / allclose: expected exactly one %s, found %d' % (what, len(nodes)))
+    return nodes[0]
+
+
+def _accumulation(src, loop, acc):
+    """`for b, z in zip(molalities, charges): if <acc> is None: <acc> = E else: <acc> += E`  ->  source text of E"""
+    if not (isinstance(loop.target, ast.Tuple) and [getattr(e, 'id', None) for e in loop.target.elts] == ['b', 'z']
+            and ' '.join(seg(src, loop.iter).split()) == 'zip(molalities, charges)' and len(loop.body) == 1 and not loop.orelse):
+        raise ExtractError('ionic_strength: loop over zip(molalities, charges) changed (line %d)' % loop.lineno)
+    st = loop.body[0]
+    if not (isinstance(st, ast.If) and ' '.join(seg(src, st.test).split()) == '%s is None' % acc and len(st.body) == 1
+            and len(st.orelse) == 1 and isinstance(st.body[0], ast.Assign) and isinstance(st.orelse[0], ast.AugAssign)
+            and isinstance(st.orelse[0].op, ast.Add) and seg(src, st.body[0].targets[0]) == acc and seg(src, st.orelse[0].target) == acc):
+        raise ExtractError('ionic_strength: accumulation idiom of `%s` changed (line %d)' % (acc, st.lineno))
+    e1, e2 = seg(src, st.body[0].value), seg(src, st.orelse[0].value)
+    if ' '.join(e1.split()) != ' '.join(e2.split()):
+        raise ExtractError('ionic_strength: first term `%s` and added term `%s` of `%s` differ' % (e1, e2, acc))
+    return e1
+
+
+def _ionic_strength_pieces(repo, src, tree):
+    """python source of small straight-line functions holding the expressions of ionic_strength and of the scalar path of
+    chempy.units.allclose, verbatim from the source text (translated afterwards by pyfn2lean)"""
+    f = find_def(tree, 'ionic_strength')
+    loops = [n for n in f.body if isinstance(n, ast.For)]
+    warn_if = _one([n for n in f.body if isinstance(n, ast.If) and ' '.join(seg(src, n.test).split()) == 'warn'], '`if warn:` block')
+    loops_w = [n for n in warn_if.body if isinstance(n, ast.For)]
+    e_tot = _accumulation(src, _one(loops, 'top-level loop'), 'tot')
+    e_net = _accumulation(src, _one(loops_w, 'loop in the warn block'), 'net')
+    ret = _one([n for n in f.body if isinstance(n, ast.Return)], 'return')
+    test = _one([n for n in warn_if.body if isinstance(n, ast.If)], '`if not allclose(...)`')
+    if not (isinstance(test.test, ast.UnaryOp) and isinstance(test.test.op, ast.Not) and isinstance(test.test.operand, ast.Call)
+            and getattr(test.test.operand.func, 'id', None) == 'allclose' and len(test.body) == 1 and not test.orelse
+            and seg(src, test.body[0]).startswith('warnings.warn(')):
+        raise ExtractError('ionic_strength: neutrality test is no longer `if not allclose(...): warnings.warn(...)`')
+    call = test.test.operand
+    kws = {k.arg: k.value for k in call.keywords}
+    if len(call.args) != 2 or set(kws) != {'atol'} or ' '.join(seg(src, call.args[0]).split()) != 'net':
+        raise ExtractError('ionic_strength: allclose call changed')
+    usrc, utree = parse(repo, 'chempy/units.py')
+    ac = _one([n for n in utree.body if isinstance(n, ast.FunctionDef) and n.name == 'allclose'], 'units.allclose')
+    body = [n for n in ac.body if not (isinstance(n, ast.Expr) and isinstance(n.value, ast.Constant))]
+    # scalar path: [if UncertainQuantity ...]* ; try: d = abs(a - b) ... ; lim = abs(a) * rtol ; if atol is not None: lim += atol ;
+    #              try: len(d) except TypeError: return d <= lim  else: ...
+    trys = [n for n in body if isinstance(n, ast.Try)]
+    if len(trys) != 2:
+        raise ExtractError('units.allclose: structure changed (expected two try blocks)')
+    d_assign = trys[0].body[0]
+    if not (len(trys[0].body) == 1 and isinstance(d_assign, ast.Assign) and seg(usrc, d_assign.targets[0]) == 'd'):
+        raise ExtractError('units.allclose: `d = ...` changed')
+    lim_assign = _one([n for n in body if isinstance(n, ast.Assign) and seg(usrc, n.targets[0]) == 'lim'], '`lim = ...`')
+    lim_if = _one([n for n in body if isinstance(n, ast.If) and ' '.join(seg(usrc, n.test).split()) == 'atol is not None'],
+                  '`if atol is not None:`')
+    if not (len(lim_if.body) == 1 and isinstance(lim_if.body[0], ast.AugAssign) and isinstance(lim_if.body[0].op, ast.Add)
+            and seg(usrc, lim_if.body[0].target) == 'lim' and not lim_if.orelse):
+        raise ExtractError('units.allclose: `lim += atol` changed')
+    t2 = trys[1]
+    if not (len(t2.body) == 1 and ' '.join(seg(usrc, t2.body[0]).split()) == 'len(d)' and len(t2.handlers) == 1
+            and getattr(t2.handlers[0].type, 'id', None) == 'TypeError' and len(t2.handlers[0].body) == 1
+            and isinstance(t2.handlers[0].body[0], ast.Return)):
+        raise ExtractError('units.allclose: scalar return path changed')
+    ret_text = ' '.join(seg(usrc, t2.handlers[0].body[0].value).split())
+    py = '\n'.join([
+        'def is_term_tot(b, z):\n    return %s\n' % e_tot,
+        'def is_term_net(b, z):\n    return %s\n' % e_net,
+        'def is_result(tot):\n    return %s\n' % seg(src, ret.value),
+        'def is_neutral_ref(tot):\n    return %s\n' % seg(src, call.args[1]),
+        'def is_neutral_atol(tot):\n    return %s\n' % seg(src, kws['atol']),
+        'def allclose_d(a, b):\n    return %s\n' % seg(usrc, d_assign.value),
+        'def allclose_lim(a, rtol, atol):\n    lim = %s\n    lim = lim + (%s)\n    return lim\n'
+        % (seg(usrc, lim_assign.value), seg(usrc, lim_if.body[0].value)),
+    ])
+    return py, ret_text
+
+
+def _signature(tree, name, lean):
+    """(parameter, default as source text | "") list of a top-level function / method-free def, as a Lean literal"""
+    f = find_def(tree, name)
+    a = f.args
+    names = [x.arg for x in a.args]
+    defs = [''] * (len(names) - len(a.defaults)) + [ast.unparse(d) for d in a.defaults]
+    items = ', '.join('(%s, %s)' % (lean_str(n), lean_str(d)) for n, d in zip(names, defs))
+    return '/-- parameters and defaults of `%s` (source text) -/\ndef %s : List (String × String) := [%s]\n' % (name, lean, items)
+
+
+PRELUDE = """/-- Python `abs` on numbers (trusted reading): used by the translated body of `chempy.units.allclose` -/
+class HasPyAbs (α : Type) where pabs : α → α
+instance {α : Type} [LT α] [DecidableLT α] [Neg α] [NatCast α] : HasPyAbs α := ⟨fun x => if x < ((0 : Nat) : α) then -x else x⟩
+"""
+
+
 def generate(repo):
     src0, tree0 = parse(repo, REL)
     src, tree = desugar(src0, tree0, ['A', 'B'])
@@ -221,12 +330,17 @@ def generate(repo):
 
     full = ['eps_r', 'T', 'rho', 'b0']
     nob0 = ['eps_r', 'T', 'rho']
+
+    def trw(py, ln, params, objects=(), b0_default=False):
+        d = tr(py, ln + '_raw', params, objects, b0_default)
+        parts.append(_canonical_wrapper(d, ln, params))
+
     for py, l in (('A', 'a'), ('B', 'b')):
         tr(py, l + 'Num', full)
-        tr(py, l + 'NumUnits', full, objects=('units',))
-        tr(py, l + 'NumUnitsB0', nob0, objects=('units',), b0_default=True)
-        tr(py, l + 'Const', full, objects=('constants',))
-        tr(py, l + 'ConstUnitsB0', nob0, objects=('units', 'constants'), b0_default=True)
+        trw(py, l + 'NumUnits', full, objects=('units',))
+        trw(py, l + 'NumUnitsB0', nob0, objects=('units',), b0_default=True)
+        trw(py, l + 'Const', full, objects=('constants',))
+        trw(py, l + 'ConstUnitsB0', nob0, objects=('units', 'constants'), b0_default=True)
     tr('limiting_log_gamma', 'limitingLogGamma', ['IS', 'z', 'A', 'I0'])
     tr('extended_log_gamma', 'extendedLogGamma', ['IS', 'z', 'a', 'A', 'B', 'C', 'I0'])
     tr('davies_log_gamma', 'daviesLogGamma', ['IS', 'z', 'A', 'C', 'I0'])
@@ -235,4 +349,22 @@ def generate(repo):
     tr('extended_log_gamma', 'extendedLogGammaDC', ['IS', 'z', 'a', 'A', 'B', 'C'])
     tr('davies_log_gamma', 'daviesLogGammaD', ['IS', 'z', 'A'])
     tr('davies_log_gamma', 'daviesLogGammaDC', ['IS', 'z', 'A', 'C'])
-    return {'FnElectrolytes.lean': P.wrap_module(parts, REL, namespace=NS)}
+    # expressions of ionic_strength and of the scalar path of allclose, verbatim from the source text
+    pysrc, ret_text = _ionic_strength_pieces(repo, src0, tree0)
+    ptree = ast.parse(pysrc)
+    absf = {'abs': ('HasPyAbs.pabs', 'HasPyAbs')}
+    for py, ln in (('is_term_tot', 'isTermTot'), ('is_term_net', 'isTermNet'), ('is_result', 'isResult'),
+                   ('is_neutral_ref', 'isNeutralRef'), ('is_neutral_atol', 'isNeutralAtol'), ('allclose_d', 'allcloseD'),
+                   ('allclose_lim', 'allcloseLim')):
+        parts.append(P.translate_function(pysrc, ptree, py, lean_name=ln, const_env={}, extra_funcs=absf,
+                                          doc='expression of the source (see tools/extract/electrolytes.py)'))
+    parts.append('/-- the scalar return of chempy.units.allclose (`except TypeError:` branch of `len(d)`), source text -/\n'
+                 'def allcloseReturnText : String := %s\n' % lean_str(ret_text))
+    usrc, utree = parse(repo, 'chempy/units.py')
+    for name, lean in (('ionic_strength', 'sigIonicStrength'), ('A', 'sigA'), ('B', 'sigB'), ('limiting_log_gamma', 'sigLimiting'),
+                       ('extended_log_gamma', 'sigExtended'), ('davies_log_gamma', 'sigDavies'),
+                       ('limiting_activity_product', 'sigLimitingProduct'), ('extended_activity_product', 'sigExtendedProduct'),
+                       ('davies_activity_product', 'sigDaviesProduct')):
+        parts.append(_signature(tree0, name, lean))
+    parts.append(_signature(utree, 'allclose', 'sigAllclose'))
+    return {'FnElectrolytes.lean': P.wrap_module([PRELUDE] + parts, REL, namespace=NS)}
